@@ -10,6 +10,7 @@ import CLModel.Proofs.C11Eq
 import CLModel.Proofs.C12BExample
 import CLModel.Proofs.C11Cache
 import CLModel.Proofs.C11SoundX
+import CLModel.Proofs.C11Obj
 namespace C11
 open Rx PM
 
@@ -362,5 +363,85 @@ theorem cache_never_stale (c : CMatcher) (hc : C11C.CacheOK c) (other : CMatcher
 
 /-- a new matcher object is consistent (nothing cached) -/
 theorem cache_initially_empty (m : Matcher) : C11C.CacheOK (CMatcher.mk' m) := C11C.cacheOK_mk m
+
+
+/-! ### round 5: matcher OBJECTS whose environment dict is state (`Paths/MatcherObj.lean`) -/
+
+/-- **`match` and `sub` change nothing but the cache of the matcher they are called on.**  Their answer is that of
+    `CMatcher.match` / `CMatcher.sub` on the views (with a valid cache: the stateless `Matcher.match` / `sub`,
+    `cache_never_stale`); afterwards every dict that existed is unchanged, every object is what it was except that the
+    `_cached_re` of `o` is the one `CMatcher.match` leaves - whatever the call answers (groups, None, an exception). -/
+theorem match_sub_preserve_env (s : Store) (o other : Nat) (c oc : CMatcher) (hv : s.view o = some c)
+    (hvo : s.view other = some oc) (path : Text) :
+    (∃ s', Store.match o path s = some (liftX (c.match path).1, s') ∧ C11O.OnlyCaches s s' o (c.match path).2.cache) ∧
+    (∃ s', Store.sub o other path s = some (liftX (c.sub oc path).1, s') ∧
+      C11O.OnlyCaches s s' o (c.sub oc path).2.cache) ∧
+    (∀ s' cache, C11O.OnlyCaches s s' o cache →
+      s'.view o = some { c with cache := cache } ∧ ∀ o' c', o' ≠ o → s.view o' = some c' → s'.view o' = some c') :=
+  ⟨C11O.match_spec hv path, C11O.sub_spec hv hvo path,
+   fun _ _ h => ⟨C11O.view_onlyCaches_self h hv, fun _ _ hne hv' => C11O.view_onlyCaches_other h hne hv'⟩⟩
+
+/-- **`with_env` / `Matcher(m, env, root)` / `concat` copy the environment.**  The derived object is NEW (index = number
+    of objects so far), its env dict is NEW (address = size of the heap so far, so it is no existing object's dict), it
+    holds the source's entries updated with the given ones, nothing is cached, every existing object and dict is
+    untouched (`Derives`); the derived matcher is `CMatcher.rebuild` / `CMatcher.concat` of the source's VIEW, i.e. the
+    matcher a fresh construction from the same pattern, variables and root gives - whatever was called on the source before. -/
+theorem with_env_copies_env (s : Store) (o : Nat) (c : CMatcher) (hv : s.view o = some c) :
+    (∀ env root d, c.rebuild env root = .ok d →
+      ∃ s' nb, Store.rebuild o env root s = some (.ok s.objs.length, s') ∧ C11O.Derives s s' nb d.m.env ∧
+        nb.pattern = d.m.pattern ∧ nb.cache = none ∧ d.cache = none) ∧
+    (∀ other arg d, s.argOf other = some arg → c.concat arg = .ok d →
+      ∃ s' nb, Store.concat o other s = some (.ok s.objs.length, s') ∧ C11O.Derives s s' nb d.m.env ∧
+        nb.pattern = d.m.pattern ∧ nb.cache = none ∧ d.cache = none) ∧
+    (∀ s' nb nenv, C11O.Derives s s' nb nenv →
+      s'.view s.objs.length = some { m := { pattern := nb.pattern, env := nenv }, cache := nb.cache } ∧
+      ∀ o' c', s.view o' = some c' → s'.view o' = some c') :=
+  ⟨fun env root d h => (C11O.rebuild_spec hv env root).2 d h,
+   fun other _ d ha h => (C11O.concat_spec hv other ha).2 d h,
+   fun _ _ _ h => ⟨C11O.view_derives_new h, fun _ _ hv' => C11O.view_derives_old h hv'⟩⟩
+
+/-- **No aliasing**: in a store whose objects do not share env dicts (`NoAlias`; kept by every call, `history_keeps_objects`)
+    a write to one matcher's environment - `m.env[k] = parse(v)`, what `concat` does to its own result - is invisible through
+    every OTHER matcher: a derived matcher cannot change its source, nor the source a matcher derived from it. -/
+theorem env_write_is_local (s : Store) (hn : C11O.NoAlias s) (o : Nat) (k v : Text) (r : Except XErr Unit) (s' : Store)
+    (h : Store.envSet o k v s = some (r, s')) (o' : Nat) (hne : o' ≠ o) (c : CMatcher) (hv : s.view o' = some c) :
+    s'.view o' = some c :=
+  C11O.envSet_local hn h hne hv
+
+/-- **Histories.**  Start from any well formed, alias free store with valid caches (the empty store is one) and run ANY
+    sequence of calls that do not write to an environment - constructions, `prefix`, `str()`, `expand` with missing variables,
+    `repr()`, `==`, `match`, `sub`, `with_env` / re-rooted copies, `concat`, in any order, on any objects, raising or not:
+    the store stays well formed and alias free, every object that existed keeps its pattern, root and environment, and
+    every cache is the regex of its object's CURRENT pattern / environment / root.  Hence every later answer is the
+    stateless function of the arguments: the history cannot be observed. -/
+theorem history_keeps_objects (s : Store) (hw : C11O.WF s) (hn : C11O.NoAlias s)
+    (hc : ∀ o c, s.view o = some c → C11C.CacheOK c) (ops : List Op) (hq : ∀ op ∈ ops, C11O.Quiet op)
+    (outs : List (Except XErr Out)) (s' : Store) (h : s.run ops = some (outs, s')) :
+    C11O.WF s' ∧ C11O.NoAlias s' ∧ (∀ o c, s.view o = some c → ∃ c', s'.view o = some c' ∧ c'.m = c.m) ∧
+      (∀ o c, s'.view o = some c → C11C.CacheOK c) :=
+  C11O.run_keeps ops s hw hn hc hq outs s' h
+
+/-- the empty store satisfies the hypotheses of `history_keeps_objects` -/
+theorem history_start : C11O.WF Store.empty ∧ C11O.NoAlias Store.empty ∧
+    (∀ o c, Store.empty.view o = some c → C11C.CacheOK c) := C11O.empty_ok
+
+/-- a derived matcher after ANY quiet history = the one derived at once: `with_env` on the object after the history gives
+    the view `CMatcher.rebuild` computes from the source's ORIGINAL pattern and environment -/
+theorem derived_after_history_is_fresh (s : Store) (hw : C11O.WF s) (hn : C11O.NoAlias s)
+    (hc : ∀ o c, s.view o = some c → C11C.CacheOK c) (ops : List Op) (hq : ∀ op ∈ ops, C11O.Quiet op)
+    (outs : List (Except XErr Out)) (s1 : Store) (h : s.run ops = some (outs, s1))
+    (o : Nat) (c : CMatcher) (hv : s.view o = some c) (env : List (Text × Text)) (root : Option Text) (m : Matcher)
+    (hm : c.m.rebuild env root = .ok m) :
+    ∃ (s2 : Store) (nb : MObj), Store.rebuild o env root s1 = some (.ok s1.objs.length, s2) ∧
+      s2.view s1.objs.length = some { m := m, cache := none } ∧ s2.objs = s1.objs ++ [nb] ∧ nb.env = s1.heap.length := by
+  obtain ⟨_, _, hv1, _⟩ := C11O.run_keeps ops s hw hn hc hq outs s1 h
+  obtain ⟨c1, hvc1, hm1⟩ := hv1 o c hv
+  have hd : c1.rebuild env root = .ok (CMatcher.mk' m) := by
+    unfold CMatcher.rebuild
+    rw [hm1, hm]; rfl
+  obtain ⟨s2, nb, h1, h2, h3, h4, _⟩ := (C11O.rebuild_spec hvc1 env root).2 _ hd
+  refine ⟨s2, nb, h1, ?_, h2.1, h2.2.1⟩
+  rw [C11O.view_derives_new h2, h3, h4]
+  rfl
 
 end C11
